@@ -1258,6 +1258,115 @@ def harden(ctx, thorough):
                  b.ravel().tolist()[:20], a.ravel().tolist()[:20])
 
 
+# ------------------------------------------------------------------ result aliasing across calls
+class Keeper:
+    """KEEP-AND-RECHECK: every returned array is kept uncopied next to a deep copy; after later calls the kept array must
+    still equal its copy; results of different calls must not share memory with each other or with arguments/attributes."""
+
+    def __init__(self, ctx):
+        self.ctx, self.items = ctx, []
+
+    def keep(self, what, arr, inp, against=()):
+        arrs = [a for a in (arr if isinstance(arr, (tuple, list)) else [arr]) if isinstance(a, np.ndarray)]
+        for a in arrs:
+            for name, other in against:
+                if isinstance(other, np.ndarray) and a.size and other.size and np.shares_memory(a, other):
+                    self.ctx.fail("result_aliases_internal_state", "%s shares memory with %s" % (what, name), inp, None, None)
+            for w2, a2, _, _ in self.items:
+                if a.size and a2.size and np.shares_memory(a, a2):
+                    self.ctx.fail("result_overwritten_by_later_call", "%s shares memory with the result of an earlier call (%s)" % (what, w2), inp, None, None)
+            self.items.append((what, a, a.copy(), inp))
+            self.ctx.count("alias:kept results")
+
+    def recheck(self):
+        for what, a, c, inp in self.items:
+            if a.shape != c.shape or not np.array_equal(a, c):
+                self.ctx.fail("result_overwritten_by_later_call", "%s, kept by the caller, was changed by a later call" % what, inp, a.tolist()[:4], c.tolist()[:4])
+                break
+        self.items = []
+
+
+def scribble(a):
+    """overwrite a returned array in place with garbage (after the caller has copied what it needs)"""
+    for x in (a if isinstance(a, (tuple, list)) else [a]):
+        if isinstance(x, np.ndarray) and x.size and x.flags.writeable:
+            x[...] = -9 if x.dtype.kind in "iu" else (7.25 if x.dtype.kind == "f" else x.flat[0])
+
+
+def alias_audit(ctx, thorough):
+    """every entry point that returns arrays: same-shaped calls repeated on ONE object with other seeds/inputs; kept results must
+    survive, scribbled results must not matter, results must not share memory with each other / arguments / attributes"""
+    from quantecon.game_theory import BRD, KMR, SamplingBRD, FictitiousPlay, LocalInteraction, LogitDynamics, NormalFormGame, Player
+    rng = ctx.rng
+    for it in range(30 if thorough else 10):
+        n, N = rng.choice([2, 3]), rng.choice([3, 5])
+        A = np.array(gen_payoff(rng, n), dtype=float)
+        Bm = np.array(gen_payoff(rng, n), dtype=float)
+        adj = np.array([[rng.choice([0, 1, 2]) for _ in range(N)] for _ in range(N)])
+        ts = rng.choice([3, 6])
+        g = NormalFormGame((Player(A.copy()), Player(Bm.copy())))
+        objs = {"BRD": BRD(A, N), "KMR": KMR(A, N, epsilon=0.3), "SamplingBRD": SamplingBRD(A, N, k=2), "FictitiousPlay": FictitiousPlay(g),
+                "LocalInteraction": LocalInteraction(A, adj), "LogitDynamics": LogitDynamics(g, beta=1.0)}
+        fresh = {"BRD": lambda: BRD(A.copy(), N), "KMR": lambda: KMR(A.copy(), N, epsilon=0.3), "SamplingBRD": lambda: SamplingBRD(A.copy(), N, k=2),
+                 "FictitiousPlay": lambda: FictitiousPlay(NormalFormGame((Player(A.copy()), Player(Bm.copy())))),
+                 "LocalInteraction": lambda: LocalInteraction(A.copy(), adj.copy()),
+                 "LogitDynamics": lambda: LogitDynamics(NormalFormGame((Player(A.copy()), Player(Bm.copy()))), beta=1.0)}
+        snapA, snapB, snapAdj = A.copy(), Bm.copy(), adj.copy()
+        ctx.case(("alias", A.tolist(), Bm.tolist(), adj.tolist(), N, ts), nontrivial=True)
+        for cls, obj in objs.items():
+            K = Keeper(ctx)
+            for rep in range(4):
+                seed = rng.randrange(2 ** 31)
+                inp = {"class": cls, "A": A.tolist(), "B": Bm.tolist(), "adj": adj.tolist(), "N": N, "ts": ts, "seed": seed, "call": rep, "aliasing_audit": True}
+
+                def run(o):
+                    if cls in ("BRD", "KMR", "SamplingBRD"):
+                        d0 = np.array(composition(np.random.RandomState(seed), N, n) if False else [N] + [0] * (n - 1), dtype=float)
+                        return o.time_series(ts, init_action_dist=d0, random_state=seed), d0
+                    if cls == "FictitiousPlay":
+                        ia = (np.array([1.0] + [0.0] * (n - 1)), np.array([0.0] * (n - 1) + [1.0]))
+                        r = o.time_series(ts, init_actions=ia, t_init=seed % 3)
+                        pl = o.play(actions=ia, num_reps=2, t_init=seed % 3)
+                        return tuple(r) + tuple(pl), ia
+                    if cls == "LocalInteraction":
+                        return o.time_series(ts, revision="asynchronous", actions=tuple([seed % n] * N), random_state=seed), None
+                    return o.time_series(ts, init_actions=(seed % n, 0), random_state=seed), None
+                try:
+                    res, arg = run(obj)
+                    ref, _ = run(fresh[cls]())
+                except Exception as e:
+                    ctx.fail("exception", "%s raised %s on a valid input" % (cls, type(e).__name__), inp, repr(e)[:200], None)
+                    break
+                rl = list(res) if isinstance(res, tuple) else [res]
+                fl = list(ref) if isinstance(ref, tuple) else [ref]
+                if any(not np.array_equal(x, y) for x, y in zip(rl, fl)):
+                    ctx.fail("result_aliases_internal_state", "%s on a reused object (earlier results scribbled on) differs from a fresh object" % cls, inp,
+                             np.asarray(rl[0]).tolist()[:3], np.asarray(fl[0]).tolist()[:3])
+                against = [("payoff matrix", A), ("payoff matrix B", Bm), ("adjacency", adj)]
+                if cls == "FictitiousPlay":
+                    against += [("init_actions[0]", arg[0]), ("init_actions[1]", arg[1])] + [("Player.payoff_array", pp.payoff_array) for pp in obj.players]
+                if cls == "LogitDynamics":
+                    against += [("logit_choice_cdfs", c) for c in obj.logit_choice_cdfs()]
+                if cls in ("BRD", "KMR", "SamplingBRD"):
+                    against += [("Player.payoff_array", obj.player.payoff_array)]
+                K.keep("%s result #%d" % (cls, rep), tuple(rl), inp, against)
+                if rep % 2 == 1:
+                    K.recheck()
+                    scribble(rl)
+                    ctx.count("alias:scribbled results")
+            K.recheck()
+        if not (np.array_equal(A, snapA) and np.array_equal(Bm, snapB) and np.array_equal(adj, snapAdj)):
+            ctx.fail("mutation", "a payoff or adjacency matrix changed along the sequences", {"A": snapA.tolist()}, None, None)
+        # logit_choice_cdfs(): the table handed out must not be what later plays rely on after the caller edits a COPY-free view?  It is the
+        # documented internal table: only check that playing does not change it.
+        ld = objs["LogitDynamics"]
+        tab = [c.copy() for c in ld.logit_choice_cdfs()]
+        ld.time_series(5, init_actions=(0, 0), random_state=1)
+        if any(not np.array_equal(x, y) for x, y in zip(tab, ld.logit_choice_cdfs())):
+            ctx.fail("mutation", "LogitDynamics changed its logit_choice_cdfs while playing", {"class": "LogitDynamics", "A": A.tolist()}, None, None)
+
+
+
 FLOAT_AXIOMS = ("FloatAxioms.Prim2SF_valid", "FloatAxioms.SF2Prim_Prim2SF", "FloatAxioms.Prim2SF_SF2Prim", "FloatAxioms.ltb_spec",
                 "FloatAxioms.leb_spec", "FloatAxioms.add_spec", "FloatAxioms.mul_spec", "FloatAxioms.eqb_spec", "FloatAxioms.compare_spec",
                 "ClassicalDedekindReals.sig_forall_dec", "ClassicalDedekindReals.sig_not_dec", "Classical_Prop.classic",
@@ -1300,7 +1409,8 @@ def run(ctx):
     logit_dynamics(ctx, thorough)
     lap("LogitDynamics")
     harden(ctx, thorough)
-    lap("hardening audit")
+    alias_audit(ctx, thorough)
+    lap("hardening + aliasing audit")
 
 
 def replay(data):
